@@ -300,5 +300,38 @@ def run(F, rep, tier):
             rep.viol('R9.3', fn + '|no-to_key', 'dictionary entry point %s does not call to_key' % fn, None)
     rep.floor('R9.3', 'to_key call sites (functions)', len(users), 20)
     # HashMap<ObjKey,_> raw inserts with keys not from to_key/From/existing keys
+    # ---------------- R9.5
+    rep.rule('R9.5', 'the binary dict operators && and -- filter the LEFT operand (retain on the payload of parameter a, looking keys up in b) '
+             'and never exchange their operands; || and ||+ extend the left operand')
+    reg = Registry(F)
+    for nm in ('&&', '--'):
+        try:
+            bp = reg.body_of(nm)
+        except CheckError as e:
+            rep.error('R9.5', str(e))
+            continue
+        b = F.body(bp)
+        swaps = [c for c in b.calls if c.target in ('std::mem::swap', 'core::mem::swap')]
+        ret = [c for c in b.calls if c.target.rsplit('::', 1)[-1] == 'retain']
+        if swaps:
+            rep.viol('R9.5', 'builtin|%s|swap' % nm, '%s exchanges its operands: the surviving entries (values, default) then come from the right dict' % nm, swaps[0].loc())
+            continue
+        if len(ret) != 1:
+            rep.viol('R9.5', 'builtin|%s|retain' % nm, '%s is not a single retain on the left dict' % nm, b.loc(0))
+            continue
+        og_ = origins(b, ret[0].args[0], passthru=('make_mut', 'deref_mut', 'deref', 'get_mut', 'as_mut'))
+        recv_names = {o[1] for o in og_ if o[0] == 'param'} | {('tuple.' + o[5]) for o in og_ if o[0] == 'payload' and len(o) > 5}
+        # the scrutinee is the tuple (a, b): element f0 is the left operand
+        recv = {2} if recv_names in ({'a'}, {'_2'}, {'tuple.f0'}) else recv_names
+        cl = [r[2] for a in ret[0].args for r in b.roots(a) if r[0] == 'agg' and r[1] == 'closure']
+        looks = False
+        for c_ in cl:
+            cb = F.body(c_)
+            looks = any(x.target.rsplit('::', 1)[-1] == 'contains_key' for x in cb.calls)
+        # TwoArgBuiltin closure: local 1 = closure env, 2 = a, 3 = b
+        if recv == {2} and looks:
+            rep.ok('R9.5', 'builtin %s' % nm, 'retain on a, membership test in b')
+        else:
+            rep.viol('R9.5', 'builtin|%s|bias' % nm, '%s filters the operand from parameter(s) %s instead of the left one' % (nm, sorted(recv)), ret[0].loc())
     rep.undecided += ['histories of dictionary operations', 'HashMap itself (std)']
     return META
